@@ -73,7 +73,13 @@ func (r *Reader) readIloc(b *box) (err error) {
 	// the box can hold) until iinf has been read.
 	keep := r.heic.exif.id == 0 && r.heic.xml.id == 0 && r.heic.pending == nil
 	if keep {
-		r.heic.pending = make([]item, 0, b.remain/entrySize)
+		// (count is a 16-bit field; the size of the box is what its header
+		// says, not what the file holds)
+		n := int(ilb.count)
+		if n > b.remain/entrySize {
+			n = b.remain / entrySize
+		}
+		r.heic.pending = make([]item, 0, n)
 	}
 
 	// The entries are read one at a time: the box may be larger than the buffer.
